@@ -12,6 +12,29 @@ class HierarchyFilterError(BaseException):
     pass
 
 
+def hash_parent_filters(parent_rtdc_ds):
+    """Hash identifying the events that a hierarchy parent passes on
+
+    The boolean array `parent.filter.all` only tells which events
+    *of the parent* are selected. If the parent is a hierarchy child
+    itself, then the very same boolean array refers to different
+    events of the root dataset once any of its ancestors changed
+    its filters (e.g. a box filter that is shifted but still lets
+    the same number of events pass). Since manual filters and cached
+    box filters of a child are tied to the actual events, the hash
+    covers the filter arrays of the parent and all of its ancestors.
+    """
+    hashes = []
+    rtdc_ds = parent_rtdc_ds
+    while True:
+        hashes.append(hashobj(rtdc_ds.filter.all))
+        if rtdc_ds.format == "hierarchy":
+            rtdc_ds = rtdc_ds.hparent
+        else:
+            break
+    return hashobj(hashes)
+
+
 class HierarchyFilter(Filter):
     def __init__(self, rtdc_ds):
         """A filtering class for RTDC_Hierarchy
@@ -39,7 +62,7 @@ class HierarchyFilter(Filter):
 
     @property
     def parent_changed(self):
-        return hashobj(self._parent_rtdc_ds.filter.all) != self._parent_hash
+        return hash_parent_filters(self._parent_rtdc_ds) != self._parent_hash
 
     def apply_manual_indices(self, rtdc_ds, manual_indices):
         """Write to `self.manual`
@@ -137,4 +160,4 @@ class HierarchyFilter(Filter):
         # hold reference to rtdc_ds parent
         # (not to its filter, because that is reinstantiated)
         self._parent_rtdc_ds = parent_rtdc_ds
-        self._parent_hash = hashobj(self._parent_rtdc_ds.filter.all)
+        self._parent_hash = hash_parent_filters(self._parent_rtdc_ds)
